@@ -889,6 +889,9 @@ func c10certainlyNonNil(v ssa.Value, b *ssa.BasicBlock) bool {
 			return true
 		}
 	}
+	if sentinelError(v) {
+		return true
+	}
 	return knownNonNil(b, sameVal(v))
 }
 
